@@ -102,6 +102,10 @@ type World struct {
 	uidSeq  int
 	nameSeq int
 	raw     client.WithWatch
+	trk     *tracker
+	// podGrace: grace period (seconds) of the pod Delete call in flight, consumed by the tracker when it stamps the
+	// deletionTimestamp (= now + grace, as the API server does)
+	podGrace map[string]int64
 
 	nodeCtrl      *informer.NodeController
 	nodeClaimCtrl *informer.NodeClaimController
@@ -142,7 +146,16 @@ func (t *tracker) fixDeletion(gvr schema.GroupVersionResource, obj runtime.Objec
 	}
 	if oldAcc, err := meta.Accessor(old); err == nil {
 		if oldAcc.GetDeletionTimestamp() == nil {
-			now := metav1.NewTime(t.w.Clock.Now())
+			at := t.w.Clock.Now()
+			if gvr.Resource == "pods" {
+				t.w.mu.Lock()
+				if g, ok := t.w.podGrace[ns+"/"+acc.GetName()]; ok {
+					at = at.Add(time.Duration(g) * time.Second)
+					delete(t.w.podGrace, ns+"/"+acc.GetName())
+				}
+				t.w.mu.Unlock()
+			}
+			now := metav1.NewTime(at)
 			acc.SetDeletionTimestamp(&now)
 		} else {
 			acc.SetDeletionTimestamp(oldAcc.GetDeletionTimestamp())
@@ -246,6 +259,8 @@ func New(opts Options) *World {
 
 	base := clienttesting.NewObjectTracker(scheme.Scheme, scheme.Codecs.UniversalDecoder())
 	tr := &tracker{ObjectTracker: base, w: w}
+	w.trk = tr
+	w.podGrace = map[string]int64{}
 	b := fake.NewClientBuilder().WithScheme(scheme.Scheme).WithObjectTracker(tr).
 		WithStatusSubresource(&v1.NodeClaim{}, &v1.NodePool{}, &corev1.Node{}, &corev1.Pod{}, &testv1alpha1.TestNodeClass{}, &policyv1.PodDisruptionBudget{}).
 		WithIndex(&corev1.Pod{}, "spec.nodeName", func(o client.Object) []string { return []string{o.(*corev1.Pod).Spec.NodeName} }).
@@ -352,6 +367,26 @@ func (w *World) interceptors() interceptor.Funcs {
 					err = apierrors.NewConflict(schema.GroupResource{Resource: kindOf(obj)}, obj.GetName(), fmt.Errorf("uid precondition failed"))
 					w.after(call, err)
 					return err
+				}
+			}
+			if pod, ok := obj.(*corev1.Pod); ok {
+				cur := &corev1.Pod{}
+				if gerr := c.Get(ctx, client.ObjectKeyFromObject(obj), cur); gerr == nil {
+					grace := int64(30)
+					if cur.Spec.TerminationGracePeriodSeconds != nil {
+						grace = *cur.Spec.TerminationGracePeriodSeconds
+					}
+					if do.GracePeriodSeconds != nil {
+						grace = *do.GracePeriodSeconds
+					}
+					if cur.DeletionTimestamp == nil {
+						w.mu.Lock()
+						w.podGrace[pod.Namespace+"/"+pod.Name] = grace
+						w.mu.Unlock()
+					} else if at := w.Clock.Now().Add(time.Duration(grace) * time.Second); at.Before(cur.DeletionTimestamp.Time) {
+						// a second delete with a shorter grace period brings the deletion forward
+						w.SetPodDeletionTime(cur, at)
+					}
 				}
 			}
 			err = c.Delete(ctx, obj, opts...)
@@ -639,3 +674,35 @@ func DefaultOptions() *options.Options {
 }
 
 var _ = object.GVK
+
+// SetPodDeletionTime rewrites the deletionTimestamp of a terminating pod directly in the store.
+func (w *World) SetPodDeletionTime(pod *corev1.Pod, at time.Time) {
+	cp := pod.DeepCopy()
+	ts := metav1.NewTime(at)
+	cp.DeletionTimestamp = &ts
+	_ = w.trk.ObjectTracker.Update(schema.GroupVersionResource{Version: "v1", Resource: "pods"}, cp, cp.Namespace)
+}
+
+// GracefulEvict is the default behaviour of a permitted eviction: a graceful delete of the pod.
+func (w *World) GracefulEvict(pod *corev1.Pod) error {
+	var err error
+	w.Quiet(func() { err = w.Client.Delete(w.Ctx, pod) })
+	return err
+}
+
+// FinishPod removes a terminating pod (the kubelet reports its containers gone).
+func (w *World) FinishPod(key client.ObjectKey) {
+	w.Quiet(func() {
+		p := &corev1.Pod{}
+		if err := w.Client.Get(w.Ctx, key, p); err != nil {
+			return
+		}
+		p.Finalizers = nil
+		if p.DeletionTimestamp == nil {
+			_ = w.Client.Update(w.Ctx, p)
+			_ = w.Client.Delete(w.Ctx, p)
+			return
+		}
+		_ = w.Client.Update(w.Ctx, p)
+	})
+}
